@@ -111,7 +111,7 @@ def judge(world):
     if h.unclear:
         world.ambiguous += 1
         return
-    relaxed = h.jumps > 0
+    relaxed = False        # a wall-clock jump does not change how long a lifetime is
     judge_consumer(world, h, relaxed)
     judge_producer(world, h, relaxed)
     judge_overrun(world, h)
@@ -450,11 +450,7 @@ def judge_consumer(world, h, relaxed):
                               f'after malformed input, Interest {iid} finished {_short(act)}; acceptable '
                               f'{sorted(map(str, map(_short, acc03)))}')
         if not ok05:
-            if act[0] in ('data', 'invalid') and late_possible and late_await and fe == 'v2':
-                world.violate('C03', 'late-await', comp, 'result-after-deadline',
-                              f'Interest {iid}: first awaited at t={t_await}us, after the deadline (t={dl}us); the validator finished '
-                              f'after the deadline too, yet its result {_short(act)} was handed out')
-            elif act[0] in ('data', 'invalid') and late_possible:
+            if act[0] in ('data', 'invalid') and late_possible:
                 world.violate('C05', 'late-validator', comp, where,
                               f'Interest {iid}: the validator finished after the deadline (t={dl}us) yet its '
                               f'result {_short(act)} was returned at t={a["t"]} instead of a timeout')
